@@ -30,4 +30,12 @@ func randomTraces(family string, n, depth int, seed int64, workers int) ([][]Lin
 	return out, nil
 }
 
-func extraCommand(cmd string, args []string) bool { return false }
+var extra = map[string]func([]string){}
+
+func extraCommand(cmd string, args []string) bool {
+	f, ok := extra[cmd]
+	if ok {
+		f(args)
+	}
+	return ok
+}
